@@ -1,7 +1,7 @@
 """C09 - no worker outlives its pool; a pool stays usable across runs and restarts."""
 import ast
 
-from ..astutil import (AnalysisError, dotted, calls_in, last_attr, receiver, norm, is_name, walk_local, is_self_attr,
+from ..astutil import (split_if, canon, canon_ast, facts_at, conjuncts, guards_of, edge_facts, AnalysisError, dotted, calls_in, last_attr, receiver, norm, is_name, walk_local, is_self_attr,
                        loc, short, parent_map, names_in)
 from ..cfg import is_flow, path_str
 
@@ -37,11 +37,11 @@ def run(ctx):
     tests = [st for st in walk_local(ex.node) if isinstance(st, ast.If)]
     ok = False
     for t in tests:
-        txt = norm(t.test)
-        if 'is None' in txt:
-            ok = any(last_attr(c) == 'close' for st in t.body for c in calls_in(st)) and any(last_attr(c) == 'terminate' for st in t.orelse for c in calls_in(st))
-        elif 'is not None' in txt:
-            ok = any(last_attr(c) == 'terminate' for st in t.body for c in calls_in(st)) and any(last_attr(c) == 'close' for st in t.orelse for c in calls_in(st))
+        # polarity-free: (statements run when `<exc> is None` holds, statements run otherwise)
+        sp = split_if(t, lambda x: isinstance(x, ast.Compare) and len(x.ops) == 1 and isinstance(x.ops[0], ast.Is) and isinstance(x.comparators[0], ast.Constant)
+                      and x.comparators[0].value is None)
+        if sp:
+            ok = any(last_attr(c) == 'close' for st in sp[0] for c in calls_in(st)) and any(last_attr(c) == 'terminate' for st in sp[1] for c in calls_in(st))
     ctx.check('R1', 'Pool.__exit__: clean exit closes, exit by exception terminates', ok, 'Pool.__exit__', 'exit-branches',
               '__exit__ does not close on a clean exit and terminate on an exception', where=loc(ex, ex.node))
     for m, graceful in (('close', 'True'), ('terminate', 'False')):
@@ -82,9 +82,19 @@ def run(ctx):
         ctx.check('R1', f'cleanup_worker: a live worker is always {name}()d', p is None and bool(ids), 'Pool._close.<cleanup_worker>', f'cleanup-skips-{name}',
                   f'the clean-up of a live worker can skip {name}()', where=loc(cw, cw.node), path=path_str(p or []))
     # the escalation condition
-    esc = [st for st in walk_local(cw.node) if isinstance(st, ast.If) and any(last_attr(c) == 'terminate' and receiver(c) == WV for x in st.body for c in calls_in(x))]
+    def _terms(stmts):
+        return [c for x in stmts for c in calls_in(x) if last_attr(c) == 'terminate' and receiver(c) == WV]
+    esc = [st for st in walk_local(cw.node) if isinstance(st, ast.If) and (_terms(st.body) or _terms(st.orelse))
+           and not any(isinstance(x, ast.If) and (_terms(x.body) or _terms(x.orelse)) for y in st.body + st.orelse for x in ast.walk(y))]
     ok = len(esc) == 1
-    cond = norm(esc[0].test) if ok else None
+    # the condition under which terminate() runs, spelled without negation (the call may sit in the else branch of the negated test)
+    cond = None
+    esc_body = []
+    if ok:
+        in_body = bool(_terms(esc[0].body))
+        txt, truth = canon(esc[0].test, in_body)
+        cond = txt if truth else f'not ({txt})'
+        esc_body = esc[0].body if in_body else esc[0].orelse
     av = [st.targets[0].id for st in walk_local(cw.node) if isinstance(st, ast.Assign) and isinstance(st.targets[0], ast.Name) and isinstance(st.value, ast.UnaryOp)
           and isinstance(st.value.operand, ast.Call) and last_attr(st.value.operand) == 'wait']
     AL = av[-1] if av else 'alive'
@@ -93,7 +103,7 @@ def run(ctx):
               'escalation-condition:' + str(cond).replace(AL, 'ALIVE'), f'the escalation to terminate() is conditional on `{cond}` instead of `{want}`: '
               'a stuck worker outlives the pool (force=None must not disable the forced termination)', where=loc(cw, esc[0]) if ok else loc(cw, cw.node))
     if ok:
-        t = [c for x in esc[0].body for c in calls_in(x) if last_attr(c) == 'terminate'][0]
+        t = [c for x in esc_body for c in calls_in(x) if last_attr(c) == 'terminate'][0]
         kw = {k.arg: norm(k.value) for k in t.keywords}
         ctx.check('R1', 'cleanup_worker: terminate is given the pool timeout', kw.get('timeout') == 'timeout', 'Pool._close.<cleanup_worker>', 'escalation-timeout',
                   'terminate() is not given the close timeout', where=loc(cw, t))
